@@ -908,7 +908,8 @@ def c18_run(ctx, scale):
         else:
             reqs.append(f"UTIL {cid} extrude {w} {h} {px.hex()}")
         meta[cid] = ("extrude", w, h, px)
-    colours = [(rng.randrange(256), rng.randrange(256), rng.randrange(256)) for _ in range(6)]
+    # boundary colours (white packs to 0xFFFFFF / 0xFFFFFFFF with alpha, black to 0) + random ones
+    colours = [(255, 255, 255), (0, 0, 0)] + [(rng.randrange(256), rng.randrange(256), rng.randrange(256)) for _ in range(4)]
     mreqs_model = []
     for k in range(n):
         first = rng.choice([0, 0, 1, 250, 254])
@@ -927,7 +928,8 @@ def c18_run(ctx, scale):
         meta[cid] = ("mapper", first, entries, failure, transp, qs)
         # indexed image made of the same queries
         w, h = 4, 3
-        img = (qb * 2)[: 4 * w * h]
+        rot = 4 * rng.randrange(len(qs))        # any query may be the first pixel
+        img = ((qb[rot:] + qb[:rot]) * 2)[: 4 * w * h]
         cid2 = f"idx{k}"
         reqs.append(f"UTIL {cid2} indexed {f.hex()} {failure} {transp} {w} {h} {img.hex()}")
         mreqs_model.append(f"UTIL {cid2}:fwd indexed {f.hex()} {failure} {transp} fwd {w} {h} {img.hex()}")
@@ -1031,6 +1033,7 @@ def c13_run(ctx, scale):
                  "the end of the last frame does not load; distinct = distinct (file, cut) pairs")
     rng = random.Random(ctx.seed * 271 + scale)
     base = small_wf_files(ctx, scale, (30 if ctx.quick else 400) * scale)
+    base += [(c, b) for c, b in vlib.verif_corpus_wf() if len(b) < 3000]
     files = []
     for cid, b in base:
         end = end_of_last_frame(b)
@@ -1196,6 +1199,13 @@ def hostile_memory_inputs(ctx, scale):
         cel = mk_chunk(0x2005, struct.pack("<HhhBH", 0, 0, 0, 255, 3) + bytes(7)
                        + struct.pack("<HHHIIII", w, h, 32, 0x1fffffff, 0x20000000, 0x40000000, 0x80000000) + bytes(10) + z)
         out.append((f"bomb-tilemap/{w}x{h}", mk_header(1, 4, 4) + mk_frame([tileset, layer, cel])))
+    # a deflate bomb inside a tileset made of very many 1x1 tiles (per-tile bookkeeping)
+    for depth, ntiles in ((8, 1 << 22), (32, 1 << 20)):
+        z = zlib.compress(bytes(ntiles * (depth // 8)), 9)
+        tileset = mk_chunk(0x2023, struct.pack("<IIIHHh", 0, 2 | 4, ntiles, 1, 1, 1) + bytes(14) + struct.pack("<H", 0)
+                           + struct.pack("<I", len(z)) + z)
+        pal = mk_chunk(0x2019, struct.pack("<III", 1, 0, 0) + bytes(8) + struct.pack("<HBBBB", 0, 1, 2, 3, 255))
+        out.append((f"bomb-tileset/{depth}/{ntiles}", mk_header(1, 4, 4, depth) + mk_frame([pal, tileset, mk_layer()])))
     # a valid sparse palette at a huge colour id (first == last): the ids are declared, not supplied
     for idx in (0x18000000, 0xfffffff0):
         pal = mk_chunk(0x2019, struct.pack("<III", 1, idx, idx) + bytes(8) + struct.pack("<HBBBB", 0, 1, 2, 3, 255))
@@ -1357,7 +1367,7 @@ def c07_run(ctx, scale):
     extra = []
     for cid, b in files:
         if cid.endswith("-1"):
-            for level in ((0, 9) if ctx.quick else range(10)):
+            for level in ((0, 1, 3, 5, 6, 9) if ctx.quick else range(10)):     # zlib headers 78 01 / 5e / 9c / da
                 try:
                     extra.append((cid[:-2] + f"-z{level}", recompress(b, level)))
                 except Exception:
@@ -1800,7 +1810,8 @@ def c09_run(ctx, scale):
     compare_cases(res, files, m, i, ["layers", "layer", "frameimg"], orc, what="parents / visibility / frame image")
     res.distribution["forests"] = len(files)
     res.distribution["max_layers"] = maxn
-    gen = wf_routine(["layers", "layer", "frameimg"], [("forest", 150, 20000), ("render", 60, 2000)], "", corpus=False)(ctx, scale)
+    gen = wf_routine(["layers", "layer", "frameimg"], [("forest", 150, 20000), ("render", 60, 2000)], "", corpus=False,
+                     spec_backed="C09.parents_spec / isVisible_spec with C02.frameImage_spec (hidden layers contribute nothing)")(ctx, scale)
     res.merge(gen)
     res.exhaustive = True
     return res
